@@ -146,8 +146,10 @@ NoRewindUnlessTold(C, L, R, w, w2, ow) ==
     ~ow => /\ \A r \in {"main", "feat"} : w2.lref[r] # w.lref[r] => AncEq(C, L, R, w.lref[r], w2.lref[r])
            /\ IsPrefix(Meaning(w.llog), Meaning(w2.llog))
 RemoteOnlyExtended(w, w2) == IsPrefix(Meaning(w.rlog), Meaning(w2.rlog))
+\* (the reference is published as it stands locally; when the local branch is not where its latest unskipped entry says --
+\* a revoked reset, say -- that is the state of the local repository, not something synchronisation adds)
 PublishedTogether(C, L, R, w, w2) ==
     w2.rlog # w.rlog => \A r \in {"main", "feat"} : LET t == RecIn(w2.rlog, Len(w.rlog), r, {"ref", "prop"}) IN
-                            t # 0 => AncEq(C, L, R, t, w2.rref[r])
+                            t # 0 => w2.rref[r] = w.lref[r]
 RefusalChangesNothing(w, res) == res.err # "" => res.w = w
 =============================================================================
